@@ -167,7 +167,11 @@ def strategy():
                                                 '/SRV/app/main.py', 'pkg/mod.py', './pkg/mod.py', 'pkg/mod.py/', 'x', 'x/', 'X', './x', 'pkg\\mod.py',
                                                 '/srv/app/main.py~', '//srv/app/main.py']), min_size=2, max_size=6),
                       st.lists(st.integers(0, 10 ** 6).map(lambda i: '/proj/mod_%d.py' % i), min_size=50, max_size=200))
-    path = st.one_of(st.sampled_from(['/', '/x', '/a/b/c', '/favicon.ico', '//', '/x/', '/<zq9x>', '/clastic_asset', '/é']),
+    path = st.one_of(st.sampled_from(['/', '/x', '/a/b/c', '/favicon.ico', '//', '/x/', '/<zq9x>', '/clastic_asset', '/é',
+                                      # under the failsafe page's own asset prefix, but not an asset: missing, refused, a directory
+                                      '/clastic_assets/../flaw.py', '/clastic_assets/no-such.css', '/clastic_assets/..hidden',
+                                      '/clastic_assets/css/../../x', '/clastic_assets', '/clastic_assets/', '/clastic_assets/../../etc/passwd',
+                                      '/clastic_assets//x']),
                      st.text(alphabet='ab/.<>9zq%', max_size=10).map(lambda s: '/' + s).filter(lambda p: not p.lstrip('/').startswith('clastic_assets')))
     return st.tuples(st.one_of(real, real, syn, free, free, other), files, path, st.sampled_from(['GET', 'GET', 'POST', 'PUT', 'DELETE']))
 
